@@ -37,7 +37,8 @@ def reprFrac (f : Nat) : List Char :=
 /-- `int(s)` for a string of decimal digits (leading zeros allowed: `int("05") = 5`) -/
 def intOfDigits (s : List Char) : Nat := s.foldl (fun acc c => acc * 10 + (digit? c).getD 0) 0
 
-/-- `epoch_time_to_utc_datetime(ms)` when `os.name == "nt"`: (microseconds after the epoch, result is tz-aware).
+/-- `epoch_time_to_utc_datetime(ms)` when `os.name == "nt"` AS IT WAS before fix D39 (/repo 19a6b81) — kept as the
+    model of the unrepaired code for the kernel-checked finding: (microseconds after the epoch, result is tz-aware).
     ```
     epoch_time = epoch_time_milli / 1000
     if os.name == "nt" and epoch_time < 0:
@@ -49,7 +50,7 @@ def intOfDigits (s : List Char) : Nat := s.foldl (fun acc c => acc * 10 + (digit
     ```
     `whole` is `'-'` followed by the digits of `|ms| // 1000` (`int("-0") = 0`), `frac` is `reprFrac (|ms| % 1000)`;
     integer `timedelta` arguments are exact. -/
-def toDatetimeNt (ms : Int) : Int × Bool :=
+def toDatetimeNtOld (ms : Int) : Int × Bool :=
   let t := msToSecF ms
   if t < 0 then
     let a := ms.natAbs
@@ -65,8 +66,19 @@ def timedeltaSeconds (t : Rat) : Int :=
   let ip := truncR t
   ip * usPerSec + roundHalfEven (fmul (t - (ip : Rat)) 1000000)
 
-/-- the proposed repair of the Windows branch -/
+/-- the repair of the Windows branch applied to every epoch (what fix D39 does for the negative ones) -/
 def toDatetimeNtPatched (ms : Int) : Int × Bool := (timedeltaSeconds (msToSecF ms), true)
+
+/-- `epoch_time_to_utc_datetime(ms)` when `os.name == "nt"`, as it is NOW (time_utils.py:24-30, after D39):
+    ```
+    if os.name == "nt" and epoch_time < 0:
+        dt = datetime.datetime(1970, 1, 1, tzinfo=utc) + datetime.timedelta(seconds=epoch_time)
+    else:
+        dt = datetime.datetime.fromtimestamp(epoch_time, datetime.timezone.utc)
+    ``` -/
+def toDatetimeNt (ms : Int) : Int × Bool :=
+  let t := msToSecF ms
+  if t < 0 then (timedeltaSeconds t, true) else (fromTimestamp t, true)
 
 /-! ## `None` pass-through (time_utils.py:19, 50, 189) -/
 
@@ -108,20 +120,22 @@ inductive CreateOut where
   | attributeError         -- `datetime.timezone` looked up on the ARGUMENT
 deriving DecidableEq, Repr
 
-/-- `create_utc_datetime(datetime)` AS IT IS (time_utils.py:122-125): the parameter is called `datetime` and shadows the
+/-- `create_utc_datetime(datetime)` AS IT WAS before fix D38 (/repo 36eaa50; time_utils.py:122-125): the parameter is called `datetime` and shadows the
     module, so after the assertion `datetime.replace(tzinfo=datetime.timezone.utc)` evaluates `datetime.timezone` on the
     argument, a `datetime.datetime` instance, which has no such attribute: AttributeError for every naive argument. -/
-def createUtcDatetime (tz : Tz) (_us : Int) : CreateOut :=
+def createUtcDatetimeOld (tz : Tz) (_us : Int) : CreateOut :=
   match tz with
   | .naive => .attributeError
   | _ => .assertionError
 
-/-- what the docstring describes ("Creates TZAware UTC datetime object from unaware object"); the proposed repair
-    renames the parameter -/
+/-- what the docstring describes ("Creates TZAware UTC datetime object from unaware object") -/
 def createUtcDatetimeFixed (tz : Tz) (us : Int) : CreateOut :=
   match tz with
   | .naive => .ok us
   | _ => .assertionError
+
+/-- `create_utc_datetime(dt)` as it is NOW (after D38): `assert dt.tzinfo is None; return dt.replace(tzinfo=utc)` -/
+def createUtcDatetime (tz : Tz) (us : Int) : CreateOut := createUtcDatetimeFixed tz us
 
 /-! ## derived durations -/
 
